@@ -143,6 +143,17 @@ theorem drop_frees_all (h : Handle) (hc : client evs = some (p, h)) (hw : wfProg
       rw [hf] at hi
       simpa [Bal, cnt] using hi.2.2
 
+/-- The literal reading "destroying an unstarted Task invokes no value callback" does NOT hold for chains that contain a
+    callback taking Result (or the error type): it is invoked with the StopError, and if it returns a value the value
+    callbacks behind it run (C02 routing).  MakeTask(1).ThenInline([](Result<int>) { return 5; }).ThenInline([](int x) {
+    return x + 1; }), destroyed unstarted: both callbacks run, 6 is computed (and dropped).  The implementation does the
+    same (corpus/pipe/cancel_recovery.txt).  Whether the property text or the library is to change is the lead's call. -/
+theorem drop_unstarted_value_callback_after_recovery_witness :
+    (run (fun _ => ⟨true, none⟩) {} [.src (.ready (.val 1)) true none, .attach (.mk 1 .res .inline (.val 5)),
+      .attach (.mk 2 .val .inline (.val 1)), .start .cancel]).g.invoked = [1, 2] ∧
+    (run (fun _ => ⟨true, none⟩) {} [.src (.ready (.val 1)) true none, .attach (.mk 1 .res .inline (.val 5)),
+      .attach (.mk 2 .val .inline (.val 1)), .start .cancel]).result = some (.val 6) := by decide +kernel
+
 /-! ### defect D10 -/
 
 /-- a Schedule()-built Task returned from a continuation: its eager twin (Run) gives 7, the lazy one crashes -/
